@@ -93,42 +93,50 @@ func c11(c *Ctx) {
 	}
 	if fn := c.Fn(bx, "R2", "valueEscape"); fn != nil {
 		// t[j] = '%'; t[j+1] = upperhex[c>>4]; t[j+2] = upperhex[c&15]; upperhex == "0123456789ABCDEF"
-		var pct, hi, lo bool
-		hexOK := false
+		// the bytes written to the output in order — indexed stores t[j+k] = x or append(t, x, y, z) — contain the triple
+		// '%', H[c>>4], H[c&15] with H the constant "0123456789ABCDEF" (by value, whatever the table is called)
+		var emitted []ast.Expr
 		inspectNoLit(fn.Body(), func(n ast.Node) bool {
 			switch s := n.(type) {
-			case *ast.ValueSpec:
-				for i, nm := range s.Names {
-					if nm.Name == "upperhex" && i < len(s.Values) {
-						if v, ok := constString(info, s.Values[i]); ok && v == "0123456789ABCDEF" {
-							hexOK = true
-						}
-					}
-				}
 			case *ast.AssignStmt:
-				if len(s.Lhs) != 1 || len(s.Rhs) != 1 {
-					return true
-				}
-				if _, ok := unparen(s.Lhs[0]).(*ast.IndexExpr); !ok {
-					return true
-				}
-				if v, ok := constInt(info, s.Rhs[0]); ok && v == '%' {
-					pct = true
-				}
-				if ie, ok := unparen(s.Rhs[0]).(*ast.IndexExpr); ok {
-					if be, ok := unparen(ie.Index).(*ast.BinaryExpr); ok {
-						k, isC := constInt(info, be.Y)
-						if be.Op == token.SHR && isC && k == 4 {
-							hi = true
-						}
-						if be.Op == token.AND && isC && k == 15 {
-							lo = true
-						}
+				if len(s.Lhs) == 1 && len(s.Rhs) == 1 {
+					if _, ok := unparen(s.Lhs[0]).(*ast.IndexExpr); ok {
+						emitted = append(emitted, s.Rhs[0])
 					}
+				}
+			case *ast.CallExpr:
+				if builtinName(info, s) == "append" && len(s.Args) > 1 && !s.Ellipsis.IsValid() {
+					emitted = append(emitted, s.Args[1:]...)
 				}
 			}
 			return true
 		})
+		nibble := func(e ast.Expr, op token.Token, k int64) (bool, ast.Expr) {
+			ie, ok := unparen(e).(*ast.IndexExpr)
+			if !ok {
+				return false, nil
+			}
+			if h, isS := constString(info, ie.X); !isS || h != "0123456789ABCDEF" {
+				return false, nil
+			}
+			be, ok := unparen(ie.Index).(*ast.BinaryExpr)
+			if !ok || be.Op != op {
+				return false, nil
+			}
+			v, isC := constInt(info, be.Y)
+			return isC && v == k, be.X
+		}
+		var pct, hi, lo, hexOK bool
+		for i := 0; i+2 < len(emitted); i++ {
+			if v, ok := constInt(info, emitted[i]); !ok || v != '%' {
+				continue
+			}
+			okH, bh := nibble(emitted[i+1], token.SHR, 4)
+			okL, bl := nibble(emitted[i+2], token.AND, 15)
+			if okH && okL && exprStr(bh) == exprStr(bl) {
+				pct, hi, lo, hexOK = true, true, true, true
+			}
+		}
 		c.Check(hexOK && pct && hi && lo, "R2", "baggage|valueEscape|escape = '%' upperhex[c>>4] upperhex[c&15]", at(bx.M, fn.Pos()), "percent-encoding of the byte", "the escape sequence is not the percent-encoding of the byte")
 	}
 
